@@ -142,10 +142,8 @@ def deep_recursion(c, asan):
             os.remove(q)
 
 
-def main():
-    c = vf.Check("C01")
-    asan, xasan, scalar, avx2, noesc = c.build("h_template.asan", "h_template.xasan", "h_template.asan_scalar", "h_template.asan_avx2", "h_template.asan_noesc")
-    model(c)
+def gen_cases(c):
+    """the malformed / mutated / deep template texts with a value each: list of (text, value json, family)"""
     rnd = random.Random(c.seed)
     g = tmplgen.Gen(c.seed)
     doc = g.root()
@@ -207,12 +205,25 @@ def main():
             cases.append((opn * depth + "{var:lv}{var:a}" + cls * depth, vj, "deep"))
             cases.append((opn * depth + "{var:lv}", vj, "deep"))
             cases.append((opn * depth + "}<else {var:lv}</loop></if>" + cls * (depth // 2), vj, "deep"))
-    inp = os.path.join(c.out, "templates.txt")
-    with open(inp, "w") as f:
+    return cases
+
+
+def write_cases(path, cases):
+    with open(path, "w") as f:
         for text, vj, fam in cases:
             tagfree = not any(ch in text for ch in "{<")
             meta = {"fam": fam, "ast": [{"t": "text", "s": [ord(ch) for ch in text]}] if tagfree else None, "doc": {"t": "Z"}}
             f.write(",".join(str(ord(ch)) for ch in text) + "\t" + ",".join(str(ord(ch)) for ch in vj) + "\t" + json.dumps(meta, separators=(",", ":")) + "\n")
+
+
+def main():
+    c = vf.Check("C01")
+    asan, xasan, scalar, avx2, noesc = c.build("h_template.asan", "h_template.xasan", "h_template.asan_scalar", "h_template.asan_avx2", "h_template.asan_noesc")
+    model(c)
+    cases = gen_cases(c)
+    maxlen = 5 if c.thorough else 4
+    inp = os.path.join(c.out, "templates.txt")
+    write_cases(inp, cases)
     p = os.path.join(c.out, "render.ndjson")
     crashes = walk.run_cases(c, asan, "render", inp, p, "template-any-text", max_restarts=60)
     # the other builds: scalar, AVX2, auto-escape off (every case in the thorough tier, every third one otherwise)
@@ -265,4 +276,5 @@ def main():
              exhaustive=False)
 
 
-vf.main_wrap(main)
+if __name__ == "__main__":
+    vf.main_wrap(main)
